@@ -74,14 +74,12 @@ def addDataChecked (propositional : Bool) (world : Bounds α) (t : Table α) :
         pure (e.1, b)
       .ok (bs.foldl (fun t e => Table.addData world t e.1 e.2) t)
 
-/-- `formula.flush()`: a propositional formula forgets data and bounds, a first-order table only
-its working bounds -/
-def flushTable (propositional : Bool) (t : Table α) : Table α :=
-  if propositional then t.map fun r => ⟨r.g, ⟨0, 1⟩, ⟨0, 1⟩⟩ else Table.flushB ⟨0, 1⟩ t
+/-- `formula.flush()`: every stored row is asserted UNKNOWN (data and working bounds), for
+propositional and first-order formulae alike -/
+def flushTable (t : Table α) : Table α := Table.assertAll ⟨0, 1⟩ t
 
-/-- `reset_world(w)` / `add_knowledge(world=w)` on a non-empty table: every working bound becomes
-the new default (propositional: the leaf too) -/
-def resetWorldTable (propositional : Bool) (w : Bounds α) (t : Table α) : Table α :=
-  if propositional then t.map fun r => ⟨r.g, w, w⟩ else Table.flushB w t
+/-- `reset_world(w)` / `add_knowledge(world=w)` on a non-empty table: every stored row is asserted
+to be the new default (data and working bounds) -/
+def resetWorldTable (w : Bounds α) (t : Table α) : Table α := Table.assertAll w t
 
 end LNN
